@@ -3,6 +3,7 @@
 //	{"cmd":"read","path":p}    open, select everything from table t, close
 //	{"cmd":"hold","path":p}    start a select and park inside its row callback
 //	{"cmd":"release"}          let the parked select finish
+//	{"cmd":"rawlock","path":p} / {"cmd":"rawshared","path":p} / {"cmd":"rawunlock"}   fcntl locks on the shared range without any reading
 package main
 
 import (
@@ -124,6 +125,25 @@ func main() {
 				f.Close()
 				reply(resp{Err: err.Error()})
 				continue
+			}
+			rawFile = f
+			reply(resp{Held: true})
+		case "rawshared":
+			// a read lock on the shared range, as any reader holds it while it
+			// looks at the file (also while it decides whether a journal is hot)
+			f, err := os.Open(q.Path)
+			if err != nil {
+				reply(resp{Err: err.Error()})
+				continue
+			}
+			fl := unix.Flock_t{Type: unix.F_RDLCK, Whence: 0, Start: 0x40000000 + 2, Len: 510}
+			if err := unix.FcntlFlock(f.Fd(), unix.F_SETLK, &fl); err != nil {
+				f.Close()
+				reply(resp{Err: err.Error()})
+				continue
+			}
+			if rawFile != nil {
+				rawFile.Close()
 			}
 			rawFile = f
 			reply(resp{Held: true})
